@@ -49,9 +49,9 @@ TraceInit ==
     /\ req = 1 /\ url = q.url /\ status = q.status
     /\ scope = "recv" /\ viaPass = FALSE /\ restarts = 0 /\ branch = "none" /\ didLookupHit = FALSE
     /\ attempt = "none"
-    /\ cache = [u \in Urls |-> "none"] /\ count = 0 /\ ttl0 = FALSE /\ uncache = FALSE /\ young = FALSE
+    /\ cache = [u \in Urls |-> "none"] /\ count = 0 /\ jailed = FALSE /\ jail = q.jail /\ ttl0 = FALSE /\ uncache = FALSE /\ young = FALSE
     /\ pc = "run" /\ lastK = <<>> /\ defined = SetOf(q.defined)
-    /\ cur = NewCur(q.url, q.status, [u \in Urls |-> "none"]) /\ hist = <<>>
+    /\ cur = [NewCur(q.url, q.status, [u \in Urls |-> "none"]) EXCEPT !.jail = q.jail] /\ hist = <<>>
 
 \* the current attempt went through vcl_pass (or recv chose pass)
 OnPassPath ==
@@ -93,6 +93,7 @@ ReqEndOK ==
        [] OTHER                 -> FALSE                                      \* a crash is never a behaviour
   /\ Rec.knowAfter => (Rec.storedAfter = (cache[url] = "fresh"))
   /\ Rec.seen >= 0 => Rec.seen = cur.seen     \* rate counter value the request saw (generated programs)
+  /\ Rec.jailSeen >= 0 => (Rec.jailSeen = 1) = cur.sawJail   \* was the client in the penalty box
 
 TraceNextReq ==
   /\ ReqEndOK
@@ -103,14 +104,14 @@ TraceNextReq ==
      IN
      /\ \E c \in cs : /\ cache' = c
                       /\ q.knowBefore => (q.storedBefore = (c[q.url] = "fresh"))
-                      /\ cur' = NewCur(q.url, q.status, c)
-     /\ url' = q.url /\ status' = q.status /\ defined' = SetOf(q.defined)
+                      /\ cur' = [NewCur(q.url, q.status, c) EXCEPT !.jail = q.jail]
+     /\ url' = q.url /\ status' = q.status /\ defined' = SetOf(q.defined) /\ jail' = q.jail
      /\ r' = rn
   /\ fin' = fin \cup {r} /\ l' = 1 /\ req' = req + 1
   /\ scope' = "recv" /\ viaPass' = FALSE /\ restarts' = 0 /\ branch' = "none" /\ didLookupHit' = FALSE
   /\ attempt' = "none" /\ ttl0' = FALSE /\ uncache' = FALSE /\ young' = FALSE /\ pc' = "run"
   /\ lastK' = <<>> /\ hist' = hist
-  /\ UNCHANGED <<t, count>>
+  /\ UNCHANGED <<t, count, jailed>>
 
 TraceNext == TraceStep \/ TraceSkip \/ TraceNextReq
 TraceSpec == TraceInit /\ [][TraceNext]_tvars
